@@ -529,7 +529,8 @@ def sheet_chunk(jobs: list) -> list:
                 # completed and used for the chart under test (staged_data)
                 def render(cd_, _t=types[tname][0], _sl=slide):
                     _sl.shapes.add_chart(_t, Emu(0), Emu(0), Emu(1000000), Emu(1000000), cd_)
-                    _sl.shapes._spTree.remove(_sl.shapes[-1]._element)        # the scratch chart leaves the slide (one chart per slide is read back)
+                    _el = _sl.shapes[-1]._element
+                    _el.getparent().remove(_el)                               # the scratch chart leaves the slide (one chart per slide is read back)
                 gf = slide.shapes.add_chart(types[tname][0], Emu(0), Emu(0), Emu(3000000), Emu(2000000), staged_data(shape, parity, render))
             else:
                 first = PRE[shape["kind"]] if site == "ReplaceData" else shape
